@@ -207,6 +207,35 @@ let () = iter_lines (fun line ->
          Printf.printf "%d %s %s %s\n" (if c then 1 else 0) (String.concat " " (Stdlib.List.init 2 (fun i -> string_of_z (st (z_of_int i)))))
            (String.concat " " (Stdlib.List.init 3 (fun i -> string_of_z (sh (z_of_int i))))) (String.concat " " (Stdlib.List.init 3 (fun i -> string_of_z (hp (z_of_int i)))))
        | GenPrelude.Stuck -> print_endline "Stuck" | GenPrelude.Fuel -> print_endline "Fuel" | GenPrelude.Exn -> print_endline "Exn")
+    | "genp4" :: _ :: _ :: hcnt :: _ :: f :: hash :: mpi :: logbc :: probe :: nn :: bytes ->
+      (* the GENERATED BucketLimP4<4, useHashCodePartGetter>::AddCrt: hashCount = 4 or 6 (case field), minMemPoolIndex = 2 for 8-byte items (the real side prints
+         its own constants); pointer tokens: 0 = null, 1000 = the block before, 2000 = the block of the BucketMemory guard *)
+      let by = Array.of_list (Stdlib.List.map int_of_string bytes) in
+      let m = (fun i -> let i = int_of_z i in if i >= 0 && i < Array.length by then z_of_int by.(i) else z_of_int 255) in
+      let p = if nn = "1" then z_of_int 1000 else z_of_int 0 in
+      let st = z_of_int (int_of_string mpi - 1) in
+      let mf = (f = "1") and cf = (f = "2") in
+      let t = z_of_int 2000 in
+      let r = Gen_LimP4_exn.coq_AddCrt (z_of_string hcnt) (z_of_int 2) m p st cf (z_of_string hash) (z_of_string logbc) (z_of_string probe)
+                mf t t mf t t mf cf t t mf cf t t mf cf t t in
+      (match r with
+       | GenPrelude.Ok (((c, sh), p'), st') ->
+         Printf.printf "hc=%s min=2 %d %s st=%s chg=%d blocks=%d\n" hcnt (if c then 1 else 0) (String.concat " " (Stdlib.List.init (int_of_string hcnt) (fun i -> string_of_z (sh (z_of_int i)))))
+           (string_of_z st') (if int_of_z p' <> int_of_z p then 1 else 0) (if int_of_z p' = 0 then 0 else 1)
+       | GenPrelude.Stuck -> print_endline "Stuck" | GenPrelude.Fuel -> print_endline "Fuel" | GenPrelude.Exn -> print_endline "Exn")
+    | ["genrst"; _; _; _; _; f; cap0; cnt0; capacity; count; w; v] ->
+      (* the GENERATED Array<.., ArraySettings<4>>::Data::Reset: pointer tokens 1000 = the external block before, 2000 = &mInternalItems,
+         3000 = the block pvAllocate returns; the creator's clobber of the union word = the first item it wrote (none written: unchanged) *)
+      let clob = if int_of_string w > 0 then z_of_string v else z_of_string cap0 in
+      let r = Gen_ArrReset_exn.coq_Reset (z_of_int 4) (z_of_int 1000) (z_of_string cnt0) (z_of_string cap0) (z_of_string capacity) (z_of_string count)
+                (f = "1") (f = "2") (z_of_int 3000) (z_of_int 2000) clob (z_of_int 2000) in
+      (match r with
+       | GenPrelude.Ok (((c, it), cn), cp) ->
+         let it = int_of_z it in
+         Printf.printf "cap0=%s wasint=0 %d %s cnt=%s cap=%s blocks=%d\n" cap0 (if c then 1 else 0)
+           (if it = 2000 then "internal" else if it = 1000 then "same" else "new") (string_of_z cn)
+           (if it = 2000 then "4" else string_of_z cp) (if it = 2000 then 0 else 1)
+       | GenPrelude.Stuck -> print_endline "Stuck" | GenPrelude.Fuel -> print_endline "Fuel" | GenPrelude.Exn -> print_endline "Exn")
     | ["noderemove"; _; n; k; index] ->
       let n = int_of_string n and k = int_of_string k and index = int_of_string index in
       let cap = if n <= 2 then 2 else 4 in
